@@ -23,9 +23,8 @@ def crafted_setup(kind):
         enc = prudp.PRUDPMessageV1(s)
         net = sim.net
         orig_fate = net.fate
+        mitm = {}
         def fate(tx):
-            if tx.src != ps.SERVER:
-                return orig_fate(tx)
             try:
                 pk = enc.decode(tx.data)
             except Exception:
@@ -33,7 +32,38 @@ def crafted_setup(kind):
             if len(pk) != 1:
                 return orig_fate(tx)
             p = pk[0]
-            if p.type == 0 and p.flags & 1 and kind.startswith("syn"):
+            raising = kind.startswith("syn:") and any(int(x) > 0 for x in kind.split(":")[1:])
+            if tx.src != ps.SERVER:
+                if raising and p.type == 1 and not p.flags & 1 and "orig" in mitm:
+                    # a scripted "server" in the middle: the CONNECT goes on to the real server with the values it offered, so that
+                    # the handshake can complete and what the client ends up with becomes visible
+                    p.minor_version, p.max_substream_id, p.supported_functions = mitm["orig"]
+                    p.signature = enc.calc_packet_signature(p, b"", enc.calc_connection_signature(tx.src))
+                    net.inject(tx.src, tx.dst, enc.encode(p), 0.004)
+                    return []
+                return orig_fate(tx)
+            if raising and p.type == 1 and p.flags & 1 and "crafted" in mitm:
+                p.minor_version, p.max_substream_id, p.supported_functions = mitm["crafted"]
+                p.signature = enc.calc_packet_signature(p, b"", enc.calc_connection_signature(ps.SERVER))
+                net.inject(tx.src, tx.dst, enc.encode(p), 0.004)
+                return []
+            def delta(p, dm, ds, df):
+                p.minor_version = max(0, p.minor_version + dm)
+                p.max_substream_id = max(0, p.max_substream_id + ds)
+                if df < 0: p.supported_functions &= ~2
+                elif df > 0: p.supported_functions |= 0x100000
+            if kind.startswith(("syn:", "con:")):
+                which, dm, ds, df = kind.split(":")
+                if not ((p.type == 0 and which == "syn") or (p.type == 1 and which == "con")) or not p.flags & 1:
+                    return orig_fate(tx)
+                mitm["orig"] = (p.minor_version, p.max_substream_id, p.supported_functions)
+                delta(p, int(dm), int(ds), int(df))
+                mitm["crafted"] = (p.minor_version, p.max_substream_id, p.supported_functions)
+                if which == "syn":
+                    p.signature = enc.calc_packet_signature(p, b"", b"")
+                else:
+                    p.signature = enc.calc_packet_signature(p, b"", enc.calc_connection_signature(ps.SERVER))
+            elif p.type == 0 and p.flags & 1 and kind.startswith("syn"):
                 if kind == "syn-sub+1": p.max_substream_id += 1
                 elif kind == "syn-minor+1": p.minor_version += 1
                 elif kind == "syn-extra-bit": p.supported_functions |= 0x100000
@@ -141,10 +171,10 @@ def work(args):
             script = [[("c", 0, b"ping"), ("s", 0, b"pong")]]
             setup = None
         elif kind == "lite":
-            (cm, cf), (sm, sf) = c, s
-            cfg = ps.Cfg(transport="lite", minor_version=cm, supported_functions=cf)
-            cfgs = ps.Cfg(transport="lite", minor_version=sm, supported_functions=sf)
-            script = [[("c", 0, b"ping"), ("s", 0, b"pong"), ("c", 1, b"beyond")]]
+            (cm, cf), (sm, sf) = c[:2], s[:2]
+            cfg = ps.Cfg(transport="lite", minor_version=cm, supported_functions=cf, max_substream=(c[2] if len(c) > 2 else 0))
+            cfgs = ps.Cfg(transport="lite", minor_version=sm, supported_functions=sf, max_substream=(s[2] if len(s) > 2 else 0))
+            script = [[("c", 0, b"ping"), ("s", 0, b"pong"), ("c", 1, b"beyond"), ("s", 1, b"beyond")]]
             setup = None
         else:  # crafted
             cfg = ps.Cfg(version=1, max_substream=2, minor_version=3, supported_functions=0x0F, resend_limit=1, resend_timeout=0.5)
@@ -192,14 +222,29 @@ def work(args):
             if not connected:
                 bad.append("lite handshake failed: %s" % sess.connect_error)
             elif pc != want or psv != want:
-                bad.append("lite: client reports %r, server reports %r, expected %r" % (pc, psv, want))
+                bad.append("lite (which carries no substream option: the maximum is 0 on both sides): client %r reports %r, server %r reports %r, expected %r" % (c, pc, s, psv, want))
+            else:
+                if sess.got.get(("s", 0)) != [b"ping"] or sess.got.get(("c", 0)) != [b"pong"]:
+                    bad.append("lite: substream 0 did not carry its data")
+                errs = {(e[0], e[1]) for e in sess.send_errors if "ValueError" in e[2]}
+                for side in "cs":
+                    if (side, 1) not in errs:
+                        bad.append("lite: send on substream 1 (beyond the agreed 0) was not refused at %s (client %r, server %r)" % (side, c, s))
         else:
             if c.endswith("identity"):
                 # control: a re-signed but unchanged ack must be accepted (the crafting itself is sound)
                 if not connected:
                     bad.append("re-signed unchanged %s was refused: %s" % (c, sess.connect_error))
+            elif c.startswith("syn:") and not any(int(x) > 0 for x in c.split(":")[1:]):
+                # an ack that only lowers the offer is a legitimate answer: both sides must end up with exactly the lowered values
+                dm, ds, df = (int(x) for x in c.split(":")[1:])
+                want = (max(0, 3 + dm), max(0, 2 + ds), 0x0F & ~2 if df < 0 else 0x0F)
+                if not connected:
+                    bad.append("a SYN ack that only lowers the offer (%s) was refused: %s" % (c, sess.connect_error))
+                elif pc != want or psv != want:
+                    bad.append("after a SYN ack lowering the offer (%s): client reports %r, server %r, expected %r" % (c, pc, psv, want))
             elif connected:
-                bad.append("client accepted a crafted %s (its parameters now %r, server %r)" % (c, pc, psv))
+                bad.append("client accepted a crafted %s (offer (3, 2, 0xF); its parameters now %r, server %r)" % (c, pc, psv))
         return idx, kind, repr(c), repr(s), seed, bad, sess, None
     except Exception:
         return idx, kind, repr(c), repr(s), seed, [], None, traceback.format_exc()
@@ -237,6 +282,18 @@ def cases(rng, quick):
             vis.append((v, 0 if weak else rng.choice(MINORS), 0 if weak else rng.choice(SUBS), (rng.choice([0, 2]) if weak else rng.choice(MASKS)),
                         round(j * rng.choice([0.0, 0.003, 0.05, 0.4]), 6)))
         out.append(("visitors", tuple(vis), sv))
+    # every combination of lowering / keeping / raising each of the three parameters in the SYN ack (raising any one must be
+    # refused whatever happens to the others) and in the CONNECT ack (any deviation from the echo must be refused)
+    for which in ("syn", "con"):
+        for dm in (-1, 0, 1):
+            for ds in (-1, 0, 1):
+                for df in (-1, 0, 1):
+                    if (dm, ds, df) != (0, 0, 0):
+                        out.append(("crafted", "%s:%d:%d:%d" % (which, dm, ds, df), None))
+    lt3 = [(3, 0x0F, 0), (6, 0xFFFFFF, 1), (0, 0, 3), (4, 0xF0, 2)]
+    for c in lt3:
+        for s_ in lt3:
+            out.append(("lite", c, s_))
     for k in ["syn-identity", "con-identity", "syn-sub+1", "syn-minor+1", "syn-extra-bit", "con-sub-1", "con-minor-1", "con-minor+1", "con-mask"]:
         out.append(("crafted", k, None))
     return out
@@ -247,7 +304,7 @@ def run(ctx):
     cs = cases(ctx.rng, quick)
     ctx.rule = ("handshakes between real endpoints for (minor 0..6) x (max substream 0..3) x (function mask in {0,1,0x0F,0xA5A5A5,0xFFFFFF}) "
                 "for client and server (all 19600 pairs in the thorough tier; every triple on both sides + corners in quick), all 9 prudp.version "
-                "pairs, lite, 7 crafted SYN/CONNECT acks, and sequences of 3..6 clients of different capabilities (weak ones first, v0 among them) visiting one "
+                "pairs, lite (also with max_substream_id > 0 on either side), 9 + 52 crafted SYN/CONNECT acks (every combination of lowering / keeping / raising the three parameters), and sequences of 3..6 clients of different capabilities (weak ones first, v0 among them) visiting one "
                 "dual-stack server port with interleaved handshakes (each must negotiate the meet of its own and the server's configuration); each UDP session is replayed through the Lean L1 model (every datagram byte- and "
                 "tick-exact); distinct non-trivial = distinct (kind, client, server) configurations")
     jobs = [(i, k, c, s, ctx.rng.getrandbits(32)) for i, (k, c, s) in enumerate(cs)]
